@@ -83,8 +83,9 @@ func (stream *receiverStream) processRTP(now time.Time, pktHeader *rtp.Header) {
 
 		// compute jitter
 		// https://tools.ietf.org/html/rfc3550#page-39
+		// the RTP timestamp difference is taken modulo 2^32 so that it stays correct across the timestamp wrap
 		D := now.Sub(stream.lastRTPTimeTime).Seconds()*stream.clockRate -
-			(float64(pktHeader.Timestamp) - float64(stream.lastRTPTimeRTP))
+			float64(int32(pktHeader.Timestamp-stream.lastRTPTimeRTP)) //nolint:gosec // G115
 		if D < 0 {
 			D = -D
 		}
